@@ -56,6 +56,9 @@ def generate(rng, tier):
             direction = rng.choice(["enc", "dec"])
             L = rng.choice([0, 1, bs - 1, bs, bs + 1, 2 * bs + 1, rng.randint(0, 4 * bs)])
             ext = rng.choice([1, bs - 1 if bs > 1 else 1, bs, 2 * bs + 1])
+            if mode == "cfb8":      # one-byte mode blocks: the backend's parallel width counts bytes
+                L = rng.choice([L, w - 1, w + 1, 2 * w + 1, rng.randint(0, 3 * w + 2)])
+                ext = rng.choice([ext, w, 2 * w + 1])
             msg = rbytes_n(rng, L + ext)
             c = Case("c08_b%d" % i, "block", bs, w, dm, tags=dict(kind=mode + "_oneshot"))
             c.op("new a %s_%s new %s %s" % (mode, direction, hx(key), hx(iv)))
@@ -63,6 +66,25 @@ def generate(rng, tier):
             b = async_op(c, rng, "a", msg)
             c.expect("one-shot %s is prefix-preserving" % mode, lambda r, a=a, b=b, L=L: rbytes(r[b])[:L] == rbytes(r[a]))
         cases.append(c)
+    # CFB-8 over ciphers whose parallel width exceeds the block size by more than one byte: a short message stays on
+    # the serial path while its extension fills whole batches, and a batch reaches ciphertext bytes more than a
+    # register length back (the `iv || ciphertext` window) -- every length in that window, both directions
+    k = 0
+    for bs, w, dm in BLOCK_CFGS:
+        if w <= bs + 1:
+            continue
+        for direction in ("enc", "dec"):
+            for L in range(bs + 1, w):
+                key, iv = rbytes_n(rng, 8), rbytes_n(rng, bs)
+                msg = rbytes_n(rng, rng.choice([w, 2 * w + 1, 3 * w + 2]))
+                c = Case("c08_w%d" % k, "block", bs, w, dm, tags=dict(kind="cfb8_oneshot_wide"))
+                k += 1
+                c.op("new a cfb8_%s new %s %s" % (direction, hx(key), hx(iv)))
+                a = async_op(c, rng, "a", msg[:L])
+                b = async_op(c, rng, "a", msg)
+                c.expect("one-shot cfb8 is prefix-preserving (parallel width > block size)",
+                         lambda r, a=a, b=b, L=L: rbytes(r[b])[:L] == rbytes(r[a]))
+                cases.append(c)
     return cases
 
 
